@@ -184,8 +184,10 @@ fn check_cli(text: &str, r: &mut CaseReport) {
             _ => {
                 structural_labels(text, r);
                 let site = panic_site(&res.stderr);
+                // A Rust panic keeps the signature format of the in-process door (same root causes).
+                let sig = if site.contains(".rs:") { format!("panic:{site}") } else { format!("cli:{}:{}", res.status, site) };
                 r.fail(Failure::new(
-                    format!("cli:{}:{}", res.status, site),
+                    sig,
                     format!("oal-cli ended with {}; stderr tail: {}", res.status, tail(&res.stderr, 400)),
                 ));
             }
@@ -251,8 +253,10 @@ fn check_lsp(text: &str, r: &mut CaseReport) {
             }
             Err(LspError::Died(status, stderr)) => {
                 structural_labels(text, r);
+                let site = panic_site(&stderr);
+                let sig = if site.contains(".rs:") { format!("panic:{site}") } else { format!("lsp:{status}:{site}") };
                 r.fail(Failure::new(
-                    format!("lsp:{}:{}", status, panic_site(&stderr)),
+                    sig,
                     format!("oal-lsp died ({status}) on a full-text change; stderr tail: {}", tail(&stderr, 400)),
                 ));
                 *cell = None;
